@@ -350,8 +350,15 @@ class Report:
         cov.update(self.extra)
         ev = dict(property_id=pid, tier=tier(), seed=seed(), level=self.level, coverage=cov,
                   assumptions=self.assumptions, wall_s=round(wall, 2), violations=violations)
-        os.makedirs(os.path.join(VERIF, "evidence"), exist_ok=True)
-        with open(os.path.join(VERIF, "evidence", pid + ".json"), "w") as f:
+        # evidence/<id>.json describes a complete run of the registered command against the repository itself; runs with name
+        # filters, and runs against another tree (VERIF_REPO pointing at a scratch worktree with a seeded change applied,
+        # which is how the stored changes are re-swept) write to evidence_scratch/ instead.  A `vp run` snapshot has its own
+        # /verif and its own evidence directory, so it is not affected.
+        in_snapshot = "/.vp/runs/" in VERIF
+        scratch = os.environ.get("VERIF_PARTIAL_RUN") == "1" or (REPO != "/repo" and not in_snapshot)
+        evdir = os.path.join(VERIF, "evidence_scratch" if scratch else "evidence")
+        os.makedirs(evdir, exist_ok=True)
+        with open(os.path.join(evdir, pid + ".json"), "w") as f:
             json.dump(ev, f, indent=1, default=str)
         print("%s %s: harnesses=%d paths=%d obligations=%d discharged=%d inconclusive=%d findings=%d (known=%d) "
               "violations=%d errors=%d wall=%.1fs" % (pid, tier(), self.harnesses, self.paths, self.obligations,
